@@ -198,6 +198,27 @@ Definition predict (c : octx) (n : string) : Z :=
 Definition predict_ctrl (n : string) (esm : bool) (now end_time : Z) (breaker : bool) : Z :=
   predict (ctrl_ctx esm now end_time breaker) n.
 
+(* the same with a price feed state: price_ok = every price the operation needs is active *)
+Definition predict_full (n : string) (esm : bool) (now end_time : Z) (breaker price_ok : bool) : Z :=
+  let code := predict (mkCtx esm now end_time breaker (fun _ => true) (fun _ => true) (fun _ => true) true price_ok
+                             (fun _ => true) (fun _ => false) (fun _ => false)) n in
+  match find_handler n with
+  | Some h => if (code =? 0)%Z && h_ctl_opaque h && (esm || breaker) then -1 else code
+  | None => code
+  end.
+
+(* the hook entry points the harness calls -> the table rows they run *)
+Definition sweep_group (g : string) : list string :=
+  if String.eqb g "liquidationsV2.Liquidate" then
+    ["liquidationsV2.LiquidateIndividualVault"; "liquidationsV2.LiquidateIndividualBorrow";
+     "liquidationsV2.LiquidateForSurplusAndDebt"]
+  else if String.eqb g "auction.BeginBlocker" then ["auction.SurplusActivator"; "auction.DebtActivator"]
+  else [g].
+Definition sweep_group_known (g : string) : bool :=
+  forallb (fun n => existsb (fun r => String.eqb (s_name r) n) sweep_table) (sweep_group g).
+Definition sweep_group_starts (g : string) (breaker : bool) : bool :=
+  existsb (fun r => mem (s_name r) (sweep_group g) && sweep_starts r breaker) sweep_table.
+
 Definition handler_known (n : string) : bool :=
   match find_handler n with Some _ => true | None => false end.
 
@@ -210,10 +231,15 @@ Definition handler_owner_guarded (n : string) : bool :=
 Definition position_handler_names : list string := map mt_handler position_msgs.
 
 (* property predicates, evaluated by the runner on the IMPLEMENTATION's observations *)
-(* C12 owners: a position message signed by a non-owner must not succeed; a rejected message
-   changes nothing *)
+(* C12 owners: a message naming a position id and signed by a non-owner must not succeed; a
+   message acting on "the signer's own" records (no id) and signed by an account that owns none
+   may return ok only as a no-op; a rejected message changes nothing *)
+Definition handler_signer_keyed (n : string) : bool :=
+  existsb (fun m => String.eqb (mt_handler m) n && mem (mt_qname m) signer_keyed_msgs) msg_types.
 Definition holds_C12_owner (handler_name : string) (signer_is_owner ok changed : bool) : bool :=
-  (negb (handler_position_msg handler_name) || signer_is_owner || negb ok) && (ok || negb changed).
+  (ok || negb changed) &&
+  (signer_is_owner || negb (handler_position_msg handler_name) ||
+   (if handler_signer_keyed handler_name then negb ok || negb changed else negb ok)).
 
 (* C12 wasm: on a named network an accepted custom message comes from the designated contract *)
 Definition holds_C12_wasm (variant chain sender : string) (accepted changed : bool) : bool :=
